@@ -25,6 +25,9 @@ type World struct {
 	Checks  []IssuedCheck
 	Chain   types.ChainID
 	GenOpts GenOpts
+	Seed    int64
+	Wallets []types.Address // light wallets: keys known (KeyOf), not in the genesis, never picked at random (walletDance)
+	Tight   uint64          // id of the reserve coin that starts close to its maximum supply (0: none)
 }
 
 type MultiAcc struct {
@@ -56,6 +59,7 @@ type GenOpts struct {
 	BigStakes  bool
 	Emission   string
 	PriceCoin  uint64 // commission table coin (0 = base)
+	NoTight    bool   // no reserve coin close to its maximum supply
 }
 
 func detKey(seed int64, i int) *ecdsa.PrivateKey {
@@ -93,7 +97,7 @@ func NewWorld(seed int64, o GenOpts) *World {
 	if o.ExtraPK == 0 {
 		o.ExtraPK = 3
 	}
-	w := &World{Rng: rand.New(rand.NewSource(seed)), KeyOf: map[types.Address]*ecdsa.PrivateKey{}, Chain: types.CurrentChainID, GenOpts: o}
+	w := &World{Rng: rand.New(rand.NewSource(seed)), KeyOf: map[types.Address]*ecdsa.PrivateKey{}, Chain: types.CurrentChainID, GenOpts: o, Seed: seed}
 	for i := 0; i < o.Accounts; i++ {
 		k := detKey(seed, i)
 		a := crypto.PubkeyToAddress(k.PublicKey)
@@ -103,6 +107,12 @@ func NewWorld(seed int64, o GenOpts) *World {
 	}
 	for i := 0; i < o.Candidates+o.ExtraPK; i++ {
 		w.PubKeys = append(w.PubKeys, detPub(seed, i))
+	}
+	for i := 0; i < 3; i++ {
+		k := detKey(seed, 1000+i)
+		a := crypto.PubkeyToAddress(k.PublicKey)
+		w.Wallets = append(w.Wallets, a)
+		w.KeyOf[a] = k
 	}
 	w.Symbols = []string{"COINA", "COINB", "COINC", "TOKA", "TOKB", "USDTE", "NEWCOIN", "NEWTOK", "ABC", "LONGTICKER"}
 	return w
@@ -320,6 +330,26 @@ func (w *World) BuildGenesis() types.AppState {
 			volumes[coin] = new(big.Int).Add(volOr0(volumes, coin), v)
 		}
 	}
+	// a cheap reserve coin close to its maximum supply: CRR 100, price well below 1 BIP, room for a few hundred coins.
+	// Drawn from a stream of its own so that the rest of the genesis does not depend on it.
+	type tightDef struct {
+		id               uint64
+		reserve, maxRoom *big.Int
+	}
+	var tight *tightDef
+	if !o.NoTight {
+		r2 := rand.New(rand.NewSource(w.Seed ^ 0x7163))
+		tight = &tightDef{id: nextCoin, reserve: pip(10000 + int64(r2.Intn(5000)))}
+		nextCoin++
+		add(w.Addrs[r2.Intn(len(w.Addrs))], tight.id, pip(900000+int64(r2.Intn(200000))))
+		for _, a := range w.Addrs {
+			if r2.Intn(3) != 0 {
+				add(a, tight.id, pip(1000+int64(r2.Intn(5000))))
+			}
+		}
+		tight.maxRoom = new(big.Int).Add(pip(50+int64(r2.Intn(3000))), big.NewInt(int64(r2.Intn(1000))))
+		w.Tight = tight.id
+	}
 	// multisig account
 	{
 		ms := MultiAcc{Owners: []int{0, 1, 2}, Weights: []uint32{1, 2, 3}, Threshold: 3}
@@ -376,6 +406,11 @@ func (w *World) BuildGenesis() types.AppState {
 	}
 	// LP coins volumes are fixed already (only balances)
 	st.Coins = append(st.Coins, lpCoins...)
+	if tight != nil {
+		vol := volOr0(volumes, tight.id)
+		st.Coins = append(st.Coins, types.Coin{ID: tight.id, Name: "cheap coin", Symbol: types.StrToCoinSymbol("CHEAPCOIN"), Volume: vol.String(), Crr: 100,
+			Reserve: tight.reserve.String(), MaxSupply: new(big.Int).Add(vol, tight.maxRoom).String(), OwnerAddress: addrPtr(w.Addrs[int(tight.id)%len(w.Addrs)])})
+	}
 	// sort coins by id
 	for i := range st.Coins {
 		for j := i + 1; j < len(st.Coins); j++ {
